@@ -439,3 +439,247 @@ Proof.
   - rewrite (parse0_stmt_lines R m H), parse0_blank. reflexivity.
   - simpl app. apply (parse0_glue R (f :: h) m H).
 Qed.
+
+(* ------------------------------------------------------------------ (2) Lines reads back *)
+Section ReadBack.
+Variable mp : mapping_t.
+Local Notation rw := (rewrite_stmt mp).
+Local Arguments finish : simpl never.
+Local Arguments Lines : simpl never.
+Local Arguments Open : simpl never.
+Local Arguments Tail : simpl never.
+Local Arguments rewrite_stmt : simpl never.
+
+Definition ptail (hm : list frag * list (list frag)) : option (list stmt) :=
+  parse0 None (fst hm :: snd hm).
+
+Definition P2 (ls : list (list frag)) : Prop :=
+  forall st ss, parse0 st ls = Some ss ->
+    match st with
+    | Some (s, k, n) =>
+        if rewritten s then
+          k <> 0 -> exists ss', ss = s :: ss' /\ ptail (Open mp ls) = Some (flat_map rw ss')
+        else parse0 st (Lines mp ls) = Some (flat_map rw ss)
+    | None => parse0 None (Lines mp ls) = Some (flat_map rw ss)
+    end.
+
+Lemma rw_wf s : rewritten s = true -> Forall (fun r => stmt_wf r = true) (rw s).
+Proof. intros H. destruct (rewrite_stmt_wf mp s) as [X|X]; [exact X | congruence]. Qed.
+
+Lemma parse0_single s h m : stmt_wf s = true ->
+  parse0 None ((Frag s 0 1 :: h) :: m) = option_map (cons s) (parse0 None (h :: m)).
+Proof.
+  intros W. rewrite !parse0_line_cons. unfold eat_line0. cbn [eat_frags0].
+  rewrite W, !Nat.eqb_refl. cbn [andb].
+  destruct (eat_frags0 h) as [[a b]|]; simpl; auto. destruct (parse0 b m); reflexivity.
+Qed.
+
+Lemma parse0_first s n m : stmt_wf s = true -> (n =? 1) = false -> (2 <=? n) = true ->
+  parse0 None ([Frag s 0 n] :: m) = parse0 (Some (s, 1, n)) m.
+Proof.
+  intros W N1 N2. rewrite parse0_line_cons. unfold eat_line0. cbn [eat_frags0].
+  rewrite W, Nat.eqb_refl, N1, N2. cbn [andb]. destruct (parse0 (Some (s, 1, n)) m); reflexivity.
+Qed.
+
+Lemma Q2 ls : P2 ls -> forall l ss1 st1 rest,
+  eat_frags0 l = Some (ss1, st1) -> parse0 st1 ls = Some rest ->
+  ptail (Tail mp l ls) = Some (flat_map rw (ss1 ++ rest)).
+Proof.
+  intros HP. induction l as [|[s k n] l' IH]; intros ss1 st1 rest HE HR.
+  - simpl in HE. inversion HE. subst ss1 st1. rewrite Tail_nil. unfold ptail. simpl fst. simpl snd.
+    rewrite parse0_blank. exact (HP None rest HR).
+  - simpl in HE. destruct (stmt_wf s && (k =? 0)) eqn:W; try discriminate.
+    apply andb_true_iff in W. destruct W as [W K]. apply Nat.eqb_eq in K. subst k.
+    rewrite Tail_cons. rewrite Nat.eqb_refl, andb_true_r.
+    destruct (n =? 1) eqn:N1.
+    + apply Nat.eqb_eq in N1. subst n.
+      destruct (eat_frags0 l') as [[ss' st']|] eqn:E'; simpl in HE; try discriminate.
+      inversion HE. subst ss1 st1. clear HE.
+      pose proof (IH ss' st' rest eq_refl HR) as X. unfold ptail in X.
+      destruct (rewritten s) eqn:RW; unfold ptail; simpl fst; simpl snd.
+      * rewrite (parse0_glue _ _ _ (rw_wf s RW)). rewrite X. simpl. reflexivity.
+      * rewrite (parse0_single s _ _ W). rewrite X. simpl.
+        rewrite (rewrite_stmt_plain mp s RW). reflexivity.
+    + destruct (2 <=? n) eqn:N2; try discriminate. destruct l' as [|f' l']; try discriminate.
+      inversion HE. subst ss1 st1. clear HE. simpl app.
+      pose proof (HP (Some (s, 1, n)) rest HR) as X. simpl in X.
+      destruct (rewritten s) eqn:RW; unfold ptail; simpl fst; simpl snd.
+      * destruct (X (Nat.neq_succ_0 0)) as [ss' [-> X2]]. unfold ptail in X2.
+        rewrite (parse0_glue _ _ _ (rw_wf s RW)). rewrite X2. simpl. reflexivity.
+      * try rewrite Tail_nil. simpl fst. simpl snd. rewrite (parse0_first s n _ W N1 N2). exact X.
+Qed.
+
+Lemma parse0_open_final s0 k0 n0 f h m :
+  (let 'Frag s k n := f in stmt_eqb s s0 && (k =? k0) && (n =? n0)) = true -> (S k0 =? n0) = true ->
+  parse0 (Some (s0, k0, n0)) ((f :: h) :: m) = option_map (cons s0) (parse0 None (h :: m)).
+Proof.
+  destruct f as [s k n]. intros T F. rewrite !parse0_line_cons. unfold eat_line0. rewrite T, F.
+  destruct (eat_frags0 h) as [[a b]|]; simpl; auto. destruct (parse0 b m); reflexivity.
+Qed.
+
+Lemma parse0_open_middle s0 k0 n0 f m :
+  (let 'Frag s k n := f in stmt_eqb s s0 && (k =? k0) && (n =? n0)) = true -> (S k0 =? n0) = false ->
+  parse0 (Some (s0, k0, n0)) ([f] :: m) = parse0 (Some (s0, S k0, n0)) m.
+Proof.
+  destruct f as [s k n]. intros T F. rewrite parse0_line_cons. unfold eat_line0. rewrite T, F.
+  destruct (parse0 (Some (s0, S k0, n0)) m); reflexivity.
+Qed.
+
+Lemma P2_all : forall ls, P2 ls.
+Proof.
+  induction ls as [|l ls IH]; intros st ss HPa.
+  - simpl in HPa. destruct st as [[[s0 k0] n0]|]; try discriminate. inversion HPa. reflexivity.
+  - rewrite parse0_line_cons in HPa.
+    destruct (eat_line0 st l) as [[ss1 st1]|] eqn:EL; try discriminate.
+    destruct (parse0 st1 ls) as [rest|] eqn:PR; try discriminate.
+    simpl in HPa. inversion HPa. subst ss. clear HPa.
+    destruct st as [[[s0 k0] n0]|].
+    + unfold eat_line0 in EL. destruct l as [|[s k n] l']; try discriminate.
+      destruct (stmt_eqb s s0 && (k =? k0) && (n =? n0)) eqn:T; try discriminate.
+      pose proof T as T'. apply andb_true_iff in T'. destruct T' as [T' _].
+      apply andb_true_iff in T'. destruct T' as [T1 _]. apply stmt_eqb_eq in T1.
+      destruct (S k0 =? n0) eqn:FIN.
+      * destruct (eat_frags0 l') as [[ss' st']|] eqn:E'; simpl in EL; try discriminate.
+        inversion EL. subst ss1 st1. clear EL.
+        pose proof (Q2 ls IH l' ss' st' rest E' PR) as X.
+        destruct (rewritten s0) eqn:RW.
+        -- intros _. exists (ss' ++ rest). split; [reflexivity|].
+           rewrite Open_cons. replace (S k =? n) with true.
+           ++ exact X.
+           ++ apply andb_true_iff in T. destruct T as [T T3]. apply andb_true_iff in T. destruct T as [_ T2].
+              apply Nat.eqb_eq in T2. apply Nat.eqb_eq in T3. subst. auto.
+        -- rewrite Lines_cons. subst s. rewrite RW. cbn [andb]. rewrite Tail_cons, RW. cbn [andb fst snd].
+           rewrite (parse0_open_final s0 k0 n0 (Frag s0 k n) _ _ T FIN).
+           unfold ptail in X. rewrite X. simpl. rewrite (rewrite_stmt_plain mp s0 RW). reflexivity.
+      * destruct l' as [|f' l']; try discriminate. inversion EL. subst ss1 st1. clear EL. simpl app.
+        pose proof (IH (Some (s0, S k0, n0)) rest PR) as X. simpl in X.
+        destruct (rewritten s0) eqn:RW.
+        -- intros _. destruct (X (Nat.neq_succ_0 k0)) as [ss' [-> X2]]. exists ss'. split; auto.
+           rewrite Open_cons. replace (S k =? n) with false; [exact X2|].
+           apply andb_true_iff in T. destruct T as [T T3]. apply andb_true_iff in T. destruct T as [_ T2].
+           apply Nat.eqb_eq in T2. apply Nat.eqb_eq in T3. subst. auto.
+        -- rewrite Lines_cons. subst s. rewrite RW. cbn [andb]. rewrite Tail_cons, RW, Tail_nil. cbn [andb fst snd].
+           rewrite (parse0_open_middle s0 k0 n0 (Frag s0 k n) _ T FIN). exact X.
+    + unfold eat_line0 in EL. destruct l as [|[s k n] l'].
+      * simpl in EL. inversion EL. subst ss1 st1. rewrite Lines_blank, parse0_blank.
+        exact (IH None rest PR).
+      * rewrite Lines_cons. destruct (rewritten s && (k =? 0)) eqn:HD.
+        -- apply andb_true_iff in HD. destruct HD as [RW K]. apply Nat.eqb_eq in K. subst k.
+           rewrite (parse0_finish _ _ (rw_wf s RW)).
+           simpl in EL. destruct (stmt_wf s && (0 =? 0)) eqn:W; try discriminate.
+           destruct (n =? 1) eqn:N1.
+           ++ destruct (eat_frags0 l') as [[ss' st']|] eqn:E'; simpl in EL; try discriminate.
+              inversion EL. subst ss1 st1. clear EL.
+              pose proof (Q2 ls IH l' ss' st' rest E' PR) as X. unfold ptail in X. rewrite X.
+              reflexivity.
+           ++ destruct (2 <=? n); try discriminate. destruct l' as [|f' l']; try discriminate.
+              inversion EL. subst ss1 st1. clear EL. simpl app.
+              pose proof (IH (Some (s, 1, n)) rest PR) as X. simpl in X. rewrite RW in X.
+              destruct (X (Nat.neq_succ_0 0)) as [ss' [-> X2]]. unfold ptail in X2. rewrite X2.
+              reflexivity.
+        -- exact (Q2 ls IH (Frag s k n :: l') ss1 st1 rest EL PR).
+Qed.
+
+Lemma Lines_reads_back ls ss :
+  parse0 None ls = Some ss -> parse0 None (Lines mp ls) = Some (flat_map rw ss).
+Proof. intros H. exact (P2_all ls None ss H). Qed.
+End ReadBack.
+
+(* ------------------------------------------------------------------ main statements *)
+Lemma rewrite_splice_correct_lemma mp ls body :
+  ast_view ls = Some body ->
+  stmts_of (apply_replacements (replacements mp body) ls)
+  = Some (flat_map (rewrite_stmt mp) (map it_stmt body)).
+Proof.
+  intros HA. rewrite (apply_replacements_Lines mp ls body HA), stmts_of_parse0.
+  apply Lines_reads_back. rewrite <- stmts_of_parse0. unfold stmts_of. rewrite HA. reflexivity.
+Qed.
+
+(* None exactly when there is no absolute ImportFrom at top level *)
+Lemma replacements_nil_iff mp body :
+  replacements mp body = [] <-> forallb (fun it => negb (rewritten (it_stmt it))) body = true.
+Proof.
+  induction body as [|[[s a] b] body IH]; simpl; [tauto|].
+  rewrite andb_true_iff, <- IH. unfold it_stmt. simpl.
+  destruct s as [[|l] m ns|i]; simpl; split; intros H; try discriminate; try tauto.
+  destruct H; discriminate.
+Qed.
+
+Lemma rewrite_none_iff_lemma mp ls body :
+  rewrite_imports mp ls body = None <->
+  (forall it, In it body -> rewritten (it_stmt it) = false).
+Proof.
+  unfold rewrite_imports.
+  assert (E : (forall it, In it body -> rewritten (it_stmt it) = false)
+              <-> replacements mp body = []).
+  { rewrite replacements_nil_iff, forallb_forall. split; intros H it Hit.
+    - rewrite (H it Hit). reflexivity.
+    - apply negb_true_iff. auto. }
+  rewrite E. destruct (replacements mp body); split; intros H; congruence.
+Qed.
+
+Lemma rewrite_source_correct_lemma mp ls body :
+  ast_view ls = Some body ->
+  match rewrite_source mp ls with
+  | Ok None => forall it, In it body -> rewritten (it_stmt it) = false
+  | Ok (Some out) =>
+      (exists it, In it body /\ rewritten (it_stmt it) = true) /\
+      stmts_of out = Some (flat_map (rewrite_stmt mp) (map it_stmt body))
+  | _ => False
+  end.
+Proof.
+  intros HA. unfold rewrite_source. rewrite HA.
+  destruct (rewrite_imports mp ls body) as [out|] eqn:E.
+  - split.
+    + destruct (existsb (fun it => rewritten (it_stmt it)) body) eqn:X.
+      * apply existsb_exists in X. exact X.
+      * exfalso. assert (N : rewrite_imports mp ls body = None).
+        { apply rewrite_none_iff_lemma. intros it Hit.
+          destruct (rewritten (it_stmt it)) eqn:R; auto.
+          assert (existsb (fun it => rewritten (it_stmt it)) body = true)
+            by (apply existsb_exists; exists it; auto). congruence. }
+        congruence.
+    + assert (O : out = apply_replacements (replacements mp body) ls).
+      { unfold rewrite_imports in E. destruct (replacements mp body); [discriminate | congruence]. }
+      subst out. apply rewrite_splice_correct_lemma; auto.
+  - apply (proj1 (rewrite_none_iff_lemma mp ls body)). exact E.
+Qed.
+
+(* ------------------------------------------------------------------ witnesses *)
+Definition s_district42 : pystr := [100;105;115;116;114;105;99;116;52;50]%N.
+Definition s_d42 : pystr := [100;52;50]%N.
+Definition s_schema : pystr := [115;99;104;101;109;97]%N.
+Definition s_foo : pystr := [102;111;111]%N.
+
+(* the former F21 witness "from district42 import schema; x = 1": one physical line *)
+Definition f21_import : stmt := ImportFrom 0 (Some s_district42) [(s_schema, None)].
+Definition f21_lines : list (list frag) := [[Frag f21_import 0 1; Frag (Other 1) 0 1]].
+
+Lemma f21_now_correct_lemma :
+  line_disjoint f21_lines = false /\
+  rewrite_source gen_mapping f21_lines
+  = Ok (Some [[Frag (ImportFrom 0 (Some s_d42) [(s_schema, None)]) 0 1; Frag (Other 1) 0 1]]).
+Proof. vm_compute. split; reflexivity. Qed.
+
+(* the former F27 witness "\x0cfrom district42 import schema\nx = 1\n": since the repair the
+   line list is the tokenizer's, the form feed is just a blank in front of the import *)
+Definition ff_lines : list (list frag) := [[Frag f21_import 0 1]; [Frag (Other 1) 0 1]].
+
+Lemma ff_now_correct_lemma :
+  rewrite_source gen_mapping ff_lines
+  = Ok (Some [[Frag (ImportFrom 0 (Some s_d42) [(s_schema, None)]) 0 1]; [Frag (Other 1) 0 1]]).
+Proof. vm_compute. reflexivity. Qed.
+
+(* the hypothesis [ast_view ls = Some body] is needed: positions that do not index the line
+   list (what str.splitlines() did before the repair of F27) replace the wrong line *)
+Definition mis_lines : list (list frag) := [[]; [Frag f21_import 0 1]; [Frag (Other 1) 0 1]].
+Definition mis_body : list (stmt * (nat * nat) * (nat * nat)) :=
+  [(f21_import, (0, 0), (0, 1)); (Other 1, (1, 0), (1, 1))].
+
+Lemma misaligned_positions_lemma :
+  aligned mis_lines mis_body = false /\
+  match rewrite_imports gen_mapping mis_lines mis_body with
+  | Some out => stmts_of out = Some [ImportFrom 0 (Some s_d42) [(s_schema, None)]; f21_import; Other 1]
+  | None => False
+  end.
+Proof. vm_compute. split; reflexivity. Qed.
